@@ -168,9 +168,23 @@ def worker_main(modname, spec_path, out_path):
 # --------------------------------------------------------------------------
 # parent side
 # --------------------------------------------------------------------------
+_LIVE = set()
+_STOP = [False]
+
+
 def _run_proc(cmd, timeout):
+    if _STOP[0]:
+        return -9, '', 'stopped (VERIF_FAST_FAIL)', True
     p = subprocess.Popen(cmd, env=_env(), cwd=ROOT, stdout=subprocess.PIPE, stderr=subprocess.PIPE,
                          start_new_session=True, text=True)
+    _LIVE.add(p)
+    try:
+        return _run_proc2(p, timeout)
+    finally:
+        _LIVE.discard(p)
+
+
+def _run_proc2(p, timeout):
     try:
         out, err = p.communicate(timeout=timeout)
         return p.returncode, out, err, False
@@ -287,15 +301,37 @@ def check_main(pid, tier, only=None, njobs=None, keep=False):
     njobs = njobs or int(os.environ.get('VERIF_JOBS', '0') or 0) or min(16, os.cpu_count() or 4)
     tmpdir = tempfile.mkdtemp(prefix='sx-' + pid + '-')
     results = []
+    fast = bool(os.environ.get('VERIF_FAST_FAIL'))
     try:
         with concurrent.futures.ThreadPoolExecutor(max_workers=njobs) as ex:
             futs = [ex.submit(run_job, modname, j, tmpdir) for j in jobs]
             for f in concurrent.futures.as_completed(futs):
+                if f.cancelled():
+                    continue
                 r = f.result()
+                if _STOP[0]:
+                    continue
                 results.append(r)
+                if fast and r['candidates']:
+                    # VERIF_FAST_FAIL (seed evaluation only, never a registered command): stop at the first reproduced violation
+                    known0 = load_known(pid)
+                    for cand in r['candidates']:
+                        rr = replay_candidate(pid, dict(cand, job=r['job'], spec=r['spec']), tmpdir)
+                        if rr.get('violated') and not [k for k in known0 if k[0] == rr.get('key', '')]:
+                            _STOP[0] = True
+                            break
+                    if _STOP[0]:
+                        for g in futs:
+                            g.cancel()
+                        for p in list(_LIVE):
+                            try:
+                                os.killpg(p.pid, signal.SIGKILL)
+                            except ProcessLookupError:
+                                pass
                 if os.environ.get('VERIF_VERBOSE'):
                     print(f"  [{r['status']}] {r['job']} paths={r['paths']} ob={r['discharged']}/{r['obligations']} "
                           f"cand={len(r['candidates'])} inc={r['n_inconclusive']} {r['wall_s']}s", flush=True)
+        _STOP[0] = False
         results.sort(key=lambda r: r['job'] or '')
         # ---- replay candidates -------------------------------------------------
         known = load_known(pid)
@@ -376,7 +412,7 @@ def check_main(pid, tier, only=None, njobs=None, keep=False):
         for j, e in harness_errors[:5]:
             print(f'HARNESS-ERROR {pid} {j}: {e[-1500:]}')
         wall = time.time() - t0
-        if not os.environ.get('VERIF_KEEP_EVIDENCE'):
+        if not os.environ.get('VERIF_KEEP_EVIDENCE') and not fast:
             write_evidence(mod, pid, tier, seed, results, wall, len(violations), replayed, spurious, known_hits, timeouts)
         print(f'{pid} [{tier}] jobs={len(results)} paths={sum(r["paths"] for r in results)} '
               f'obligations={ob} discharged={dis} inconclusive={inc} timeouts={len(timeouts)} '
